@@ -361,6 +361,10 @@ func (r *checkRun) run() int {
 	// ---- bounded stand-ins (B2 harnesses on the real code) ----
 	bounded, hv := r.runHarnesses(known, &knownHit)
 	violations = append(violations, hv...)
+	if harnessBroken {
+		// a stand-in that could not run (build error, no cases) decides nothing
+		machinery = true
+	}
 
 	// ---- evidence ----
 	var assumptions []string
@@ -585,11 +589,12 @@ func (r *checkRun) runHarnesses(known []KnownFinding, knownHit *[]string) ([]map
 			}
 			os.MkdirAll(r.replayDir, 0o755)
 			p := filepath.Join(r.replayDir, sanitize(key)+".txt")
-			os.WriteFile(p, []byte(fmt.Sprintf("property: %s\nharness: %s\nbound: %s\ncase: %s\nreproduce: %s\n\n%s\n", r.prop, h.Name, h.Bound, f.key, res.cmd, f.text)), 0o644)
+			os.WriteFile(p, []byte(fmt.Sprintf("property: %s\nharness: %s\nbound: %s\ncase: %s\nreproduce: /verif/bin/gocv replay %s   (runs %s with the files %v of /verif/harness overlaid into the package)\n\n%s\n", r.prop, h.Name, h.Bound, f.key, p, res.cmd, h.Files, f.text)), 0o644)
 			vs = append(vs, Violation{Key: key, Replay: p, Text: firstLine(f.text)})
 		}
 		if res.err != "" {
 			fmt.Printf("MACHINERY: harness %s did not run: %s\n", h.Name, res.err)
+			harnessBroken = true
 		}
 	}
 	return out, vs
@@ -604,6 +609,8 @@ func firstLine(s string) string {
 
 type harnessFailure struct{ key, text string }
 
+var harnessBroken bool
+
 type harnessResult struct {
 	cases    int
 	failures []harnessFailure
@@ -612,7 +619,7 @@ type harnessResult struct {
 	cmd      string
 }
 
-var caseRe = regexp.MustCompile(`(?m)^\s*B2-CASES (\d+)`)
+var caseRe = regexp.MustCompile(`(?m)^\s*(?:\S+: )?B2-CASES (\d+)`)
 var failRe = regexp.MustCompile(`(?m)^\s*(?:\S+: )?B2-FAIL (\S+) (.*)$`)
 
 func runHarness(h harnessSpec, tier string, seed int) harnessResult {
@@ -648,6 +655,13 @@ func runHarness(h harnessSpec, tier string, seed int) harnessResult {
 	}
 	for _, m := range failRe.FindAllStringSubmatch(out.String(), -1) {
 		res.failures = append(res.failures, harnessFailure{m[1], m[2]})
+	}
+	if runErr == nil && res.cases == 0 && len(res.failures) == 0 {
+		// vacuity guard: a harness that exercised nothing decides nothing
+		res.err = "the harness reported no cases (B2-CASES line missing or zero)\n" + out.String()
+		if len(res.err) > 2000 {
+			res.err = res.err[:2000]
+		}
 	}
 	if runErr != nil && len(res.failures) == 0 {
 		// the harness failed without a structured failure line: panic, timeout or build error
